@@ -157,6 +157,54 @@ def special_templates():
     return out
 
 
+def gen_forward_events(rng, names=6):
+    """a random top-level program of forward declarations, definitions (callees: smaller declared names) and invocations; every
+    pending forward declaration is fulfilled before the end.  Returns the event list [(kind, name, callees)]."""
+    declared, pending, defined = set(), set(), set()
+    evs = []
+    for _ in range(rng.randint(4, 12)):
+        k = rng.random()
+        fresh = [n for n in range(names) if n not in declared]
+        if k < 0.25 and fresh:
+            g = rng.choice(fresh)
+            declared.add(g)
+            pending.add(g)
+            evs.append(('fwd', g, []))
+        elif k < 0.7 and (fresh or pending):
+            cand = list(pending) * 2 + fresh
+            f = rng.choice(cand)
+            smaller = [c for c in declared if c < f]
+            cs = rng.sample(smaller, rng.randint(0, min(3, len(smaller)))) if smaller else []
+            declared.add(f)
+            pending.discard(f)
+            defined.add(f)
+            evs.append(('def', f, cs))
+        elif declared:
+            evs.append(('use', rng.choice(sorted(declared)), []))
+    for g in sorted(pending):
+        smaller = [c for c in declared if c < g]
+        evs.append(('def', g, rng.sample(smaller, rng.randint(0, min(2, len(smaller)))) if smaller else []))
+    if declared:
+        evs.append(('use', rng.choice(sorted(declared)), []))
+    return evs
+
+
+def forward_program(evs):
+    src, uses = [], 0
+    for kind, f, cs in evs:
+        if kind == 'fwd':
+            src.append(f'forward fn f{f}(x: int)->int;')
+        elif kind == 'def':
+            src.append(f'fn f{f}(x: int)->int {{ x + 1' + ''.join(f' + f{c}(x)' for c in cs) + ' }')
+        else:
+            src.append(f'let u{uses} = f{f}(1);')
+            uses += 1
+    src.append('fn r()->str { to_str([' + ', '.join(f'u{i}' for i in range(uses)) + ']) }')
+    term = 'run_program [' + '; '.join({'fwd': f'Fwd {f}', 'def': f'Def {f} [{"; ".join(map(str, cs))}]', 'use': f'Use {f}'}[kind] for kind, f, cs in evs) + ']'
+    return '\n'.join(src), term
+
+
+
 FORWARD_TEMPLATES = [
     # (source, expected compile outcome class or None, expected value of f() when it compiles)
     ('forward fn g(x: int)->int;\nfn h(x: int)->int { g(x) + 1 }\nfn g(x: int)->int { x * 2 }\nfn f()->int { h(3) }', None, 'i:7'),
@@ -166,6 +214,17 @@ FORWARD_TEMPLATES = [
     ('forward fn g(x: int)->int;\nfn h(x: int)->int { g(x) + 1 }\nfn f()->int { h(3) }', 'MissingForwardImplementation', None),
     ('forward fn ev(n: int)->bool;\nfn od(n: int)->bool { if(n == 0, false, ev(n - 1)) }\nfn ev(n: int)->bool { if(n == 0, true, od(n - 1)) }\nfn f()->int { if(ev(10) && od(7), 1, 0) }', None, 'i:1'),
     ('forward fn g(x: int)->int;\nfn g(x: str)->int { 100 }\nfn h(x: int)->int { g(x) + 1 }\nfn g(x: int)->int { x * 2 }\nfn f()->int { h(3) }', None, 'i:7'),
+    # two forward declarations needed by one function, only the first fulfilled when it is invoked
+    ('forward fn a(i: int)->int;\nforward fn b(i: int)->int;\nfn both(i: int)->int { a(i) + b(i) }\nfn a(i: int)->int { i + 1 }\nlet early = both(1);\nfn b(i: int)->int { i * 2 }\nfn f()->int { early }',
+     'MissingForwardImplementation', None),
+    ('forward fn a(i: int)->int;\nforward fn b(i: int)->int;\nfn both(i: int)->int { a(i) + b(i) }\nfn b(i: int)->int { i * 2 }\nlet early = both(1);\nfn a(i: int)->int { i + 1 }\nfn f()->int { early }',
+     'MissingForwardImplementation', None),
+    ('forward fn a(i: int)->int;\nforward fn b(i: int)->int;\nfn both(i: int)->int { a(i) + b(i) }\nfn b(i: int)->int { i * 2 }\nfn a(i: int)->int { i + 1 }\nlet early = both(1);\nfn f()->int { early }', None, 'i:4'),
+    # the implementation that fulfils a forward declaration depends on another one that is still pending (defect repaired in /repo 5441009)
+    ('forward fn g(i: int)->int;\nforward fn k(i: int)->int;\nfn h(i: int)->int { g(i) + 1 }\nfn g(i: int)->int { k(i) * 2 }\nlet early = h(1);\nfn k(i: int)->int { i + 10 }\nfn f()->int { early }',
+     'MissingForwardImplementation', None),
+    ('forward fn g(i: int)->int;\nforward fn k(i: int)->int;\nfn g(i: int)->int { k(i) * 2 }\nlet early = g(1);\nfn k(i: int)->int { i + 10 }\nfn f()->int { early }', 'MissingForwardImplementation', None),
+    ('forward fn g(i: int)->int;\nforward fn k(i: int)->int;\nfn h(i: int)->int { g(i) + 1 }\nfn g(i: int)->int { k(i) * 2 }\nfn k(i: int)->int { i + 10 }\nlet late = h(1);\nfn f()->int { late }', None, 'i:23'),
 ]
 
 
@@ -174,7 +233,7 @@ class C03(PropertyCheck):
     imports = IMPORTS
     technique = 'Coq proof of interner injectivity tied to the extracted regex + lexical reference evaluator; deep-nesting / shadowing / escaping-closure differential correspondence'
     trusted = ['translator/idents.py', 'see C02 for the evaluator and generator']
-    assumptions = ['forward declarations are outside the Coq evaluator (template oracle)']
+    assumptions = ['forward declarations are outside the Coq evaluator: modelled separately in coq/Lang/Forward.v (gate = reachability, exhaustively checked to a stated bound) plus template oracle']
     rule = ('programs with functions nested up to depth 6, names from a pool of 20 spellings (so parameters/lets shadow constantly), closures stored/returned/passed, '
             'defaults with display; distinct = distinct program texts; non-trivial = the program has a function nested at level >= 2 or a shadowed name')
 
@@ -211,6 +270,14 @@ class C03(PropertyCheck):
         src = '\n'.join(f'let {x} = {i + 1};' for i, x in enumerate(names)) + '\nfn observe_all()->str { to_str([' + ', '.join(names) + ']) }'
         idjob = {'id': 'idents', 'src': src, 'calls': ['observe_all']}
         fjobs = [{'id': f'fw{i}', 'src': t[0], 'calls': ['f']} for i, t in enumerate(FORWARD_TEMPLATES)]
+        # generated forward-declaration programs against the Coq model of the gate (Lang/Forward.v)
+        fwd_terms = []
+        for i in range(150 if tier == 'quick' else 1500):
+            fsrc, fterm = forward_program(gen_forward_events(rng, rng.choice([4, 6, 8])))
+            fjobs.append({'id': f'fg{i}', 'src': fsrc, 'calls': ['r']})
+            fwd_terms.append((f'fg{i}', fsrc, fterm))
+        fwd_model = core.coq_eval([t for _, _, t in fwd_terms], 'From Coq Require Import List String.\nFrom Xr Require Import Lang.Forward Lang.ForwardInst.\nImport ListNotations.\n',
+                                  os.path.join(workdir, 'coq_fwd'), name='fwd', shard_size=40)
         res = {}
         for prof, binary in ctx['binaries']:
             res[prof] = core.run_harness(binary, jobs + [idjob] + fjobs, os.path.join(workdir, 'h_' + prof), timeout=300)
@@ -257,7 +324,30 @@ class C03(PropertyCheck):
                                        'case': {'src': fsrc}, 'impl': (comp if comp != 'ok' else str(r.get('calls')))[:300], 'model': cls or val})
                 else:
                     distinct.add(fsrc)
-        ctx['coverage'] = {'evaluations': n_eval, 'distinct_nontrivial': len(distinct), 'samples': samples, 'programs': n, 'skipped': skipped}
+        fwd_out = {}
+        for (jid, fsrc, fterm), m in zip(fwd_terms, fwd_model):
+            if m is None:
+                raise core.CheckError('forward model evaluation failed: ' + fterm)
+            if m in ('NotDeclared', 'Duplicate'):
+                raise core.CheckError('forward generator produced an ill-formed program: ' + fterm)
+            for prof, _ in ctx['binaries']:
+                r = res[prof].get(jid)
+                n_eval += 1
+                comp = r.get('compile', '') if r else 'no result'
+                if comp == 'ok' and r.get('inst') == 'ok':
+                    got = 'ok:' + str(r['calls'][0])[2:] if str(r['calls'][0]).startswith('s:') else str(r['calls'][0])
+                elif comp.startswith('err:') and comp.rstrip().endswith('[MissingForwardImplementation]'):
+                    got = 'MissingForwardImplementation'
+                else:
+                    got = (comp if comp != 'ok' else 'inst:' + str(r.get('inst')))[:300]
+                fwd_out[got.split(':')[0]] = fwd_out.get(got.split(':')[0], 0) + 1
+                if got != m:
+                    violations.append({'what': 'forward declaration rule violated: an invocation is accepted although a function it reaches has no implementation yet '
+                                               '(or a safe invocation is rejected, or the value differs)', 'case': {'src': fsrc, 'events': fterm}, 'impl': got, 'model': m, 'profile': prof})
+                else:
+                    distinct.add(fsrc)
+        ctx['coverage'] = {'evaluations': n_eval, 'distinct_nontrivial': len(distinct), 'samples': samples, 'programs': n, 'skipped': skipped,
+                           'forward_programs': len(fwd_terms), 'forward_outcomes': fwd_out}
         return violations
 
 
